@@ -22,9 +22,10 @@ CONSTANTS Script,    \* per thread: sequence of operations
 
 VARIABLES opi,     \* per thread: index of the next scripted operation
           tpc,     \* per thread: "" (not driving) | "ready" | "polling" | "parked"
-          tgot     \* per thread: items the current drive has received
+          tgot,    \* per thread: items the current drive has received
+          slept    \* per thread: asleep in a polling loop of close, and nobody else has taken a step since
 
-mcvars == <<mvars, opi, tpc, tgot>>
+mcvars == <<mvars, opi, tpc, tgot, slept>>
 
 O(o, v, s, m) == [op |-> o, v |-> v, s |-> s, max |-> m]
 S(v)     == O("send", v, 0, 0)
@@ -33,6 +34,7 @@ Dv(s, m) == O("drive", 0, s, m)
 X        == O("cancel", 0, 0, 0)
 Cr       == O("create", 0, 0, 0)
 Dp(s)    == O("drop", 0, s, 0)
+Cl       == O("close", 0, 0, 0)
 
 \* C03: a fixed set of listeners
 Script_1p2l   == << <<S(11), S(12)>>, <<Dv(0, 2)>>, <<Dv(1, 2)>> >>
@@ -51,14 +53,17 @@ Script_remove == << <<S(11), S(12)>>, <<Pl(0), Dp(0)>>, <<Dv(1, 2)>> >>
 Script_add1   == << <<S(11)>>, <<Cr, Pl(1), Pl(1)>> >>
 Script_remove1 == << <<S(11)>>, <<Dp(0)>>, <<Pl(1), Pl(1)>> >>
 Script_recycle == << <<S(11), Dp(0), Cr, S(12), Pl(0), Pl(0)>>, <<Dv(1, 2)>> >>
+\* C06: graceful close against a sender and a driven listener that is dropped when its stream ends
+Script_close  == << <<S(11)>>, <<Cl>>, <<Dv(0, 9), Dp(0)>> >>
+Script_close2 == << <<S(11)>>, <<Cl>>, <<Dv(0, 9), Dp(0)>>, <<Dv(1, 9), Dp(1)>> >>
 Script_seq    == << <<S(11), Cr, S(12), Dp(0), S(13), Cr, S(14), Pl(0), Pl(0), Pl(1), Pl(1), Pl(1), Pl(1)>> >>
 
-MCInit == MInit(Initial) /\ opi = [p \in Procs |-> 1] /\ tpc = [p \in Procs |-> ""] /\ tgot = [p \in Procs |-> 0]
+MCInit == MInit(Initial) /\ opi = [p \in Procs |-> 1] /\ tpc = [p \in Procs |-> ""] /\ tgot = [p \in Procs |-> 0] /\ slept = [p \in Procs |-> FALSE]
 
 CurOp(p) == Script[p + 1][opi[p]]
 HasOp(p) == opi[p] <= Len(Script[p + 1])
 
-MCCall(p) ==
+MCCall0(p) ==
     /\ HasOp(p) /\ pc[p] = "idle" /\ tpc[p] = ""
     /\ LET o == CurOp(p) IN
        IF o.op = "drive"
@@ -71,22 +76,23 @@ MCCall(p) ==
                  [] o.op = "cancel" -> CallCancel(p)
                  [] o.op = "create" -> CallCreate(p)
                  [] o.op = "drop"   -> CallDrop(p, o.s)
+                 [] o.op = "close"  -> CallClose(p)
             /\ opi' = [opi EXCEPT ![p] = @ + 1] /\ UNCHANGED <<tpc, tgot>>
 
-MCPoll(p) == /\ tpc[p] = "ready" /\ pc[p] = "idle"
+MCPoll0(p) == /\ tpc[p] = "ready" /\ pc[p] = "idle"
              /\ CallPoll(p, CurOp(p).s)
              /\ tpc' = [tpc EXCEPT ![p] = "polling"]
              /\ UNCHANGED <<opi, tgot>>
 
-MCUnpark(p) == /\ tpc[p] = "parked" /\ notified[p]
+MCUnpark0(p) == /\ tpc[p] = "parked" /\ notified[p]
                /\ notified' = [notified EXCEPT ![p] = FALSE]
                /\ tpc' = [tpc EXCEPT ![p] = "ready"]
                /\ UNCHANGED <<ring, sm, waker, wlock, keep, pc, reg, gh, og, opi, tgot>>
 
-MCOp(p) == ChanStep(p) /\ UNCHANGED <<opi, tpc, tgot>>
+MCOp0(p) == ChanStep(p) /\ UNCHANGED <<opi, tpc, tgot>>
 
 \* return; for a drive: decide how the task goes on (the notification is cleared right before the next poll is started)
-MCRet(p) ==
+MCRet0(p) ==
     /\ pc[p] = "cret"
     /\ IF tpc[p] # "polling"
        THEN ChanRet(p) /\ UNCHANGED <<opi, tpc, tgot>>
@@ -106,7 +112,21 @@ MCRet(p) ==
                ELSE \* end of stream
                     tpc' = [tpc EXCEPT ![p] = ""] /\ opi' = [opi EXCEPT ![p] = @ + 1] /\ UNCHANGED <<tgot, notified>>
 
-MCNext == \E p \in Procs : MCCall(p) \/ MCPoll(p) \/ MCUnpark(p) \/ MCOp(p) \/ MCRet(p)
+\* asleep in a polling loop: whoever takes a scheduler step ends everybody else's "nobody has moved since I fell asleep"
+Sleeping(p) == pc[p] \in {"SL1", "SL2"}
+SleptAfter(p) == slept' = [q \in Procs |-> IF q = p THEN pc'[p] \in {"SL1", "SL2"} ELSE FALSE]
+MCCall(p)   == MCCall0(p) /\ SleptAfter(p)
+MCPoll(p)   == MCPoll0(p) /\ SleptAfter(p)
+MCUnpark(p) == MCUnpark0(p) /\ SleptAfter(p)
+MCOp(p)     == MCOp0(p) /\ SleptAfter(p)
+MCRet(p)    == MCRet0(p) /\ UNCHANGED slept       \* not a scheduler step: it happens within the thread's last step
+MCSchedStep(p) == MCCall(p) \/ MCPoll(p) \/ MCUnpark(p) \/ MCOp(p)
+OthersCanRun(p) == \E q \in Procs \ {p} : ENABLED MCSchedStep(q)
+\* the sleep is over once another thread has taken a step since, or when nobody else can run (the timer fires)
+MCSlept(p) == /\ Sleeping(p) /\ (~slept[p] \/ ~OthersCanRun(p))
+              /\ CloseSlept(p) /\ UNCHANGED <<opi, tpc, tgot>> /\ SleptAfter(p)
+
+MCNext == \E p \in Procs : MCCall(p) \/ MCPoll(p) \/ MCUnpark(p) \/ MCOp(p) \/ MCSlept(p) \/ MCRet(p)
 
 -----------------------------------------------------------------------------
 Driving(p) == HasOp(p) /\ CurOp(p).op = "drive"
@@ -114,7 +134,7 @@ Asleep(p) == Driving(p) /\ tpc[p] = "parked" /\ ~notified[p]
 \* every thread is through with its script or is a task asleep
 Quiescent == \A p \in Procs : (~HasOp(p) /\ pc[p] = "idle") \/ Asleep(p)
 OpDone(o) == \E p \in Procs : \E i \in 1..Len(Script[p + 1]) : Script[p + 1][i].op = o /\ i < opi[p] /\ (i + 1 < opi[p] \/ pc[p] = "idle")
-Cancelled == OpDone("cancel")
+Cancelled == OpDone("cancel") \/ \E p \in Procs : \E i \in 1..Len(Script[p + 1]) : Script[p + 1][i].op = "close" /\ i < opi[p]
 
 PollBusy(s) == \E p \in Procs : pc[p] # "idle" /\ reg[p].op \in {"poll", "poll2", "drop"} /\ reg[p].sid = s
 Stream(s) == got[s] \o Q(s)                 \* what listener s has yielded and what is waiting for it
@@ -133,6 +153,13 @@ InvAllDelivered == Quiescent => \A s \in Ids : life[s] = "live" => owed[s] \subs
 InvNoLostWakeup == (Quiescent /\ ~Cancelled) => \A p \in Procs : Asleep(p) => Q(CurOp(p).s) = <<>>
 \* C07: after cancel_all_streams completed no task is left asleep
 InvCancelEnds == (Quiescent /\ Cancelled) => \A p \in Procs : ~Asleep(p)
+
+\* C06: when close has returned every event accepted before it was called has been yielded to every listener entitled to it, no listener
+\* is left, the channel is not open
+InvCloseWaits == \A p \in Procs : reg[p].res = "closed" =>
+                     (/\ reg[p].left = 0 /\ reg[p].run = 0
+                      /\ \A s \in Ids : (reg[p].acc \cap owed[s]) \subseteq Elems(got[s]))
+InvClosedAfterwards == \A p \in Procs : reg[p].res = "closed" => ~reg[p].open
 
 \* (C10) state constraint selecting the sequential histories: no send is in progress while a listener is being created / dropped
 Sequential == ~(Churning /\ \E p \in Procs : reg[p].op = "send" /\ pc[p] # "idle")
